@@ -461,12 +461,13 @@ impl<'a> StrftimeItems<'a> {
         error_len: &mut usize,
         ch: Option<char>,
     ) -> (&'b str, Item<'b>) {
-        if !self.lenient {
-            return (&original[*error_len..], Item::Error);
-        }
-
+        // Always consume the invalid specifier, so that iteration makes progress and terminates.
+        // The offending character itself is handed back to be parsed again.
         if let Some(c) = ch {
             *error_len -= c.len_utf8();
+        }
+        if !self.lenient {
+            return (&original[*error_len..], Item::Error);
         }
         (&original[*error_len..], Item::Literal(&original[..*error_len]))
     }
@@ -513,19 +514,15 @@ impl<'a> StrftimeItems<'a> {
             Some('%') => {
                 let original = remainder;
                 remainder = &remainder[1..];
-                let mut error_len = 0;
-                if self.lenient {
-                    error_len += 1;
-                }
+                // number of bytes consumed so far, including the `%`
+                let mut error_len = 1;
 
                 macro_rules! next {
                     () => {
                         match remainder.chars().next() {
                             Some(x) => {
                                 remainder = &remainder[x.len_utf8()..];
-                                if self.lenient {
-                                    error_len += x.len_utf8();
-                                }
+                                error_len += x.len_utf8();
                                 x
                             }
                             None => return Some(self.error(original, &mut error_len, None)), // premature end of string
